@@ -410,11 +410,8 @@ func lexTrace(text string, cfg string, withBytes bool) (body []ev) {
 		}
 		n++
 		sp := tok.LeafSpan()
-		txt := tok.Text()
-		if sp.Start >= 0 && sp.End <= len(text) && sp.Start <= sp.End {
-			txt = text[sp.Start:sp.End]
-		}
-		leafText := sp.Text()
+		own := tok.Text() // the text the token itself reports
+		same := sp.Start >= 0 && sp.Start <= sp.End && sp.End <= len(text) && own == text[sp.Start:sp.End]
 		role, mate, fk := "leaf", 0, ""
 		if !tok.IsLeaf() {
 			s, e := tok.StartEnd()
@@ -426,17 +423,17 @@ func lexTrace(text string, cfg string, withBytes bool) (body []ev) {
 			}
 		}
 		e := ev{"e": "Emit", "id": int(tok.ID()), "s": sp.Start, "t": sp.End, "k": tok.Kind().String(),
-			"role": role, "mate": mate, "br": bracketOf(tok, leafText), "fk": fk,
-			// Text() of a leaf is the token's own text; of a fused token the whole fused range.
-			"txt": leafText == txt}
+			"role": role, "mate": mate, "br": bracketOf(tok, own), "fk": fk,
+			// txt: the token's own Text() is exactly the input slice at its leaf offsets
+			"txt": same}
 		if withBytes {
-			bs := make([]int, 0, len(leafText))
-			for i := 0; i < len(leafText); i++ {
-				bs = append(bs, int(leafText[i]))
+			bs := make([]int, 0, len(own))
+			for i := 0; i < len(own); i++ {
+				bs = append(bs, int(own[i]))
 			}
 			e["text"] = bs
 		}
-		cat.WriteString(leafText)
+		cat.WriteString(own)
 		body = append(body, e)
 	}
 	ids, ok := walkIDs(st, n+8)
